@@ -567,6 +567,16 @@ def mut_first(pred, fn):
     return m
 
 
+def mut_pair(pred, fn):
+    """first index i such that pred(evs[i], evs[i+1])"""
+    def m(evs):
+        for i in range(len(evs) - 1):
+            if pred(evs[i], evs[i + 1]):
+                return fn(evs, i)
+        return None
+    return m
+
+
 def drop_at(evs, i):
     return evs[:i] + evs[i + 1:]
 
@@ -643,7 +653,128 @@ def check_C01(ctx):
                         'bounded design model (2 workers, <=3 records); traces are samples of schedules']
 
 
-CHECKS = {'C01': check_C01}
+def std_check(ctx, designs, gen, nprogs, per_prog, binds, nws=None, cov=None, thorough_designs=()):
+    lib = build_lib()
+    binary = build_harness(lib, 'mythprog', ['mythprog.c'])
+    if cov:
+        run_design(ctx, cov[0], cov[1], coverage=True, expect_actions=cov[2])
+    for m, c in designs:
+        run_design(ctx, m, c)
+    if not ctx.quick:
+        for m, c in thorough_designs:
+            run_design(ctx, m, c, heap='24g', timeout=7200)
+    if nws is None:
+        nws = NWS_QUICK if ctx.quick else NWS_THOROUGH
+    mult = 1 if ctx.quick else 10
+    progs, runs = core_runs(ctx, nprogs * mult, per_prog, gen, nws)
+    res, fails = traced_check(ctx, binary, progs, runs, CORE_INV)
+    g = first_good(res, fails)
+    if g and binds:
+        bind_selftest(ctx, g, CORE_INV, binds)
+    ctx.assumptions += ['serialized (sequentially consistent) executions; hooks adjacent to the accesses they describe',
+                        'bounded design model (2 workers, 2-3 threads); traces are samples of programs and schedules']
+    return res, fails
+
+
+def ev(name, **kw):
+    def pred(e):
+        if e['e'] != name:
+            return False
+        for k, val in kw.items():
+            i = int(k[1:])
+            if i >= len(e['a']) or e['a'][i] != val:
+                return False
+        return True
+    return pred
+
+
+def check_C02(ctx):
+    std_check(ctx, [('MC_Core', 'MC_Core_small.cfg')],
+              lambda rng: gen_core_prog(rng, maxb=12, flagset=(0, 0, F_PF), reap=('JN',), yields=(0, 1, 2, 3, 4)),
+              30, 6,
+              [('qtake_wrong_thread', mut_first(lambda e: e['e'] == 'QTake' and e['a'][1] > 0, set_arg(1, lambda v: v + 1))),
+               ('qpop_duplicate', mut_first(lambda e: e['e'] == 'QPop' and e['a'][1] > 0, lambda evs, i: evs[:i + 1] + [evs[i]] + evs[i + 1:])),
+               ('drop_qpush', mut_first(ev('QPush'), drop_at)),
+               ('schedrun_other', mut_first(ev('SchedRun'), set_arg(0, lambda v: v + 1)))],
+              cov=('MC_Core', 'MC_Core_cov.cfg', CORE_ACTIONS))
+
+
+def check_C04(ctx):
+    std_check(ctx, [('MC_Sync', 'MC_Sync_mutex.cfg')], gen_mutex_prog, 30, 6,
+              [('cas_result_flipped', mut_first(lambda e: e['e'] == 'MxCas' and e['a'][3] == 1, set_arg(3, 0))),
+               ('drop_clear_bit', mut_first(ev('MxClr'), drop_at)),
+               ('push_before_clear', mut_first(ev('MxClr'), swap_with_next)),
+               ('enq_dropped', mut_first(ev('SqEnq'), drop_at)),
+               ('double_acquire', mut_first(ev('U_LockRet'), lambda evs, i: evs[:i + 1] + [dict(evs[i], w=evs[i]['w'])] + evs[i + 1:]))],
+              thorough_designs=[('MC_Sync', 'MC_Sync_mutex3.cfg')])
+
+
+def check_C05(ctx):
+    std_check(ctx, [('MC_Sync', 'MC_Sync_cond.cfg'), ('MC_Sync', 'MC_Sync_gate2.cfg')], gen_cond_prog, 30, 6,
+              [('unlock_before_enqueue', mut_pair(lambda a, b: a['e'] == 'SqEnq' and b['e'] == 'MxLd' and a['w'] == b['w'], swap_with_next)),
+               ('signal_wakes_wrong', mut_first(lambda e: e['e'] == 'SqDeq' and e['a'][1] > 0, set_arg(1, lambda v: v + 1))),
+               ('wait_returns_without_lock', mut_first(ev('U_CondWaitRet'), lambda evs, i: evs[:i] + [evs[i]] + evs[i:i + 1] + evs[i + 1:])),
+               ('drop_cvsignal_push', mut_first(lambda e: e['e'] == 'SqDeq' and e['a'][1] > 0, lambda evs, i: drop_at(evs, i + 1)))],
+              thorough_designs=[('MC_Sync', 'MC_Sync_cond3.cfg'), ('MC_Sync', 'MC_Sync_gate.cfg')])
+
+
+def check_C06(ctx):
+    std_check(ctx, [('MC_Sync', 'MC_Sync_barrier.cfg')], gen_barrier_prog, 30, 6,
+              [('early_pass', mut_first(lambda e: e['e'] == 'U_BarrierCall', lambda evs, i: evs[:i + 1] + [{'w': evs[i]['w'], 'e': 'U_BarrierRet', 'a': [evs[i]['a'][0], evs[i]['a'][1], 0, 2]}] + evs[i + 1:])),
+               ('serial_flag_flipped', mut_first(lambda e: e['e'] == 'U_BarrierRet' and e['a'][2] == 1, set_arg(2, 0))),
+               ('drop_pop', mut_first(lambda e: e['e'] == 'StPop' and e['a'][1] > 0, drop_at)),
+               ('cas_count', mut_first(lambda e: e['e'] == 'BrLd', set_arg(1, lambda v: v + 1)))],
+              thorough_designs=[('MC_Sync', 'MC_Sync_barrier3.cfg')])
+
+
+def check_C07(ctx):
+    std_check(ctx, [('MC_Sync', 'MC_Sync_jc.cfg')], gen_jc_prog, 30, 6,
+              [('wake_count', mut_first(lambda e: e['e'] == 'JcWake', set_arg(2, lambda v: v + 1))),
+               ('early_return', mut_first(lambda e: e['e'] == 'U_JcWaitCall', lambda evs, i: evs[:i + 1] + [{'w': evs[i]['w'], 'e': 'U_JcWaitRet', 'a': [evs[i]['a'][0], evs[i]['a'][1], 1]}] + evs[i + 1:])),
+               ('cas_word', mut_first(lambda e: e['e'] == 'JcCas' and e['a'][3] == 1, set_arg(2, lambda v: v + 1)))],
+              thorough_designs=[('MC_Sync', 'MC_Sync_jc4.cfg')])
+
+
+def check_C08(ctx):
+    std_check(ctx, [('MC_Sync', 'MC_Sync_uncond.cfg')], gen_uncond_prog, 30, 6,
+              [('drop_publish', mut_first(ev('UcPub'), drop_at)),
+               ('resume_without_signal', mut_first(lambda e: e['e'] == 'U_UcSignalCall', drop_at)),
+               ('push_before_clear', mut_first(ev('UcClr'), swap_with_next))])
+
+
+def check_C12(ctx):
+    std_check(ctx, [('MC_Core', 'MC_Core_small.cfg')],
+              lambda rng: gen_core_prog(rng, maxb=10, flagset=(0, F_STACK, F_STACK, F_PF | F_STACK, F_ATTR, F_DETACH | F_STACK, F_PF)),
+              30, 6,
+              [('stackfree_before_switch', mut_first(lambda e: e['e'] == 'CbEnter' and e['a'][0] in (2, 3), swap_with_next)),
+               ('stack_freed_twice', mut_first(ev('StackFree'), lambda evs, i: evs[:i + 1] + [evs[i]] + evs[i + 1:])),
+               ('overlapping_stack', mut_first(lambda e: e['e'] == 'StackAlloc' and e['a'][1] > 1, lambda evs, i: set_arg(2, 1)(set_arg(3, 10 ** 6)(evs, i), i))),
+               ('descfree_before_reap', mut_first(ev('JoinReap'), swap_with_next))],
+              cov=('MC_Core', 'MC_Core_cov.cfg', CORE_ACTIONS), thorough_designs=[('MC_Core', 'MC_Core_big.cfg')])
+
+
+def check_C13(ctx):
+    std_check(ctx, [('MC_Core', 'MC_Core_small.cfg'), ('MC_Core', 'MC_Core_reap.cfg')],
+              lambda rng: gen_core_prog(rng, maxb=10, flagset=(0, 0, F_DETACH, F_PF, F_DETACH | F_PF, F_NULLID | F_DETACH),
+                                        reap=('JN', 'TJ', 'TJ', 'DT', 'DT')),
+              30, 6,
+              [('reaped_twice', mut_first(ev('DescFree'), lambda evs, i: evs[:i + 1] + [evs[i]] + evs[i + 1:])),
+               ('tryjoin_busy_although_finished', mut_first(lambda e: e['e'] == 'TryJoinChk' and e['a'][2] == 1, set_arg(2, 0))),
+               ('fresh_although_freelist', mut_first(lambda e: e['e'] == 'DescAlloc' and e['a'][3] == 0, set_arg(3, 1))),
+               ('detached_not_freed', mut_first(lambda e: e['e'] == 'FinDet' and e['a'][1] == 1, set_arg(1, 0)))],
+              cov=('MC_Core', 'MC_Core_cov.cfg', CORE_ACTIONS), thorough_designs=[('MC_Core', 'MC_Core_big.cfg')])
+
+
+def check_C14(ctx):
+    std_check(ctx, [('MC_Sync', 'MC_Sync_once.cfg')], gen_once_prog, 30, 6,
+              [('init_twice', mut_first(ev('U_OnceBody'), lambda evs, i: evs[:i + 1] + [evs[i]] + evs[i + 1:])),
+               ('return_before_done', mut_first(lambda e: e['e'] == 'U_OnceBodyEnd', drop_at)),
+               ('cas_both_win', mut_first(lambda e: e['e'] == 'OnCas' and e['a'][1] == 0, set_arg(1, 1)))],
+              thorough_designs=[('MC_Sync', 'MC_Sync_once3.cfg')])
+
+
+CHECKS = {'C01': check_C01, 'C02': check_C02, 'C04': check_C04, 'C05': check_C05, 'C06': check_C06, 'C07': check_C07,
+          'C08': check_C08, 'C12': check_C12, 'C13': check_C13, 'C14': check_C14}
 
 
 def main():
@@ -662,6 +793,119 @@ def main():
     except Infra as e:
         print('INFRASTRUCTURE ERROR (not a verdict): %s' % e)
         return 2
+
+
+
+# ----------------------------------------------------------------------------- sync program generators
+def _spawn_join(rng, child_bodies, main_extra=(), flagset=(0, 0, F_PF)):
+    """main creates every child, optionally does main_extra, joins them all"""
+    n = len(child_bodies)
+    main = [(OP['CR'], k + 1, rng.choice(flagset), 0) for k in range(n)]
+    main += list(main_extra)
+    order = list(range(1, n + 1)); rng.shuffle(order)
+    main += [(OP['JN'], k, 0, 0) for k in order]
+    return [main] + child_bodies
+
+
+def gen_mutex_prog(rng):
+    nt = rng.randint(2, 5)
+    nm = rng.randint(1, 2)
+    bodies = []
+    for _ in range(nt):
+        ops = []
+        for _ in range(rng.randint(1, 4)):
+            m = rng.randrange(nm)
+            r = rng.random()
+            if r < 0.55:
+                ops.append((OP['INC'], m, rng.choice((0, 0, 1, 3)), 0))      # b-1 = yield option inside the critical section
+            elif r < 0.85:
+                ops.append((OP['TL'], m, rng.choice((0, 0, 3)), rng.choice((0, 1))))
+            else:
+                ops.append((OP['YD'], rng.choice((0, 1, 2)), 0, 0))
+        bodies.append(ops)
+    main_extra = [(OP['INC'], 0, 0, 0)] if rng.random() < 0.5 else []
+    return {'init': [], 'bodies': _spawn_join(rng, bodies, main_extra)}
+
+
+def gen_cond_prog(rng):
+    if rng.random() < 0.3:   # gate: broadcast releases every waiter
+        nwait = rng.randint(1, 4)
+        bodies = [[(OP['WAITV'], 0, 1, 0)] for _ in range(nwait)]
+        opener = [(OP['YD'], 2, 0, 0)] * rng.randint(0, 2) + [(OP['CBC'], 0, 1, 1)]
+        bodies.insert(rng.randrange(len(bodies) + 1), opener)
+        return {'init': [], 'bodies': _spawn_join(rng, bodies)}
+    nb = rng.randint(1, 2)
+    init = [(3, b, rng.randint(1, 2)) for b in range(nb)]
+    bodies = []
+    for b in range(nb):
+        items = rng.randint(2, 5)
+        np_, nc = rng.randint(1, 2), rng.randint(1, 2)
+        bc = rng.choice((0, 0, 1))
+        # with several producers/consumers and a capacity-limited buffer a plain signal can be consumed by the
+        # wrong party only when both kinds wait on one condition; here each kind has its own condition, so
+        # signal is enough -- broadcast is used as a variant
+        def split(total, k):
+            cuts = sorted(rng.randint(0, total) for _ in range(k - 1))
+            return [b_ - a_ for a_, b_ in zip([0] + cuts, cuts + [total])]
+        for cnt in split(items, np_):
+            bodies.append([(OP['CSIG'], b, bc, 0)] * cnt)
+        for cnt in split(items, nc):
+            bodies.append([(OP['CWAIT'], b, bc, 0)] * cnt)
+    rng.shuffle(bodies)
+    return {'init': init, 'bodies': _spawn_join(rng, bodies)}
+
+
+def gen_barrier_prog(rng):
+    n = rng.choice((1, 2, 2, 3, 3, 4, 5, 8))
+    rounds = rng.randint(1, 4)
+    bodies = []
+    for _ in range(n):
+        ops = []
+        for _r in range(rounds):
+            if rng.random() < 0.3:
+                ops.append((OP['YD'], rng.choice((0, 1, 2)), 0, 0))
+            ops.append((OP['BAR'], 0, 0, 0))
+        bodies.append(ops)
+    return {'init': [(1, 0, n)], 'bodies': _spawn_join(rng, bodies)}
+
+
+def gen_jc_prog(rng):
+    nd = rng.choice((1, 1, 2, 3, 4, 7))
+    nwait = rng.randint(0, 3)
+    bodies = []
+    for _ in range(nd):
+        bodies.append([(OP['YD'], rng.choice((0, 1, 2)), 0, 0)] * rng.randint(0, 2) + [(OP['JCDEC'], 0, 0, 0)])
+    for _ in range(nwait):
+        bodies.append([(OP['YD'], rng.choice((0, 1, 2)), 0, 0)] * rng.randint(0, 2) + [(OP['JCWAIT'], 0, 0, 0)] * rng.randint(1, 2))
+    rng.shuffle(bodies)
+    main_extra = [(OP['JCWAIT'], 0, 0, 0)] if rng.random() < 0.6 else []
+    return {'init': [(2, 0, nd)], 'bodies': _spawn_join(rng, bodies, main_extra)}
+
+
+def gen_uncond_prog(rng):
+    k = rng.randint(1, 6)
+    prod = [(OP['UCSIG'], 0, 10 + i, 0) for i in range(k)]
+    cons = [(OP['UCWAIT'], 0, 0, 0) for _ in range(k)]
+    for ops in (prod, cons):
+        for _ in range(rng.randint(0, 2)):
+            ops.insert(rng.randrange(len(ops) + 1), (OP['YD'], rng.choice((0, 1, 2)), 0, 0))
+    bodies = [prod, cons]
+    rng.shuffle(bodies)
+    return {'init': [], 'bodies': _spawn_join(rng, bodies)}
+
+
+def gen_once_prog(rng):
+    nt = rng.randint(1, 5)
+    bodies = []
+    for _ in range(nt):
+        ops = []
+        for _ in range(rng.randint(1, 3)):
+            ops.append((OP['ONCE'], rng.choice((0, 0, 1)), 0, 0))
+            if rng.random() < 0.3:
+                ops.append((OP['YD'], rng.choice((0, 1, 2)), 0, 0))
+        bodies.append(ops)
+    main_extra = [(OP['ONCE'], 0, 0, 0)] if rng.random() < 0.5 else []
+    return {'init': [], 'bodies': _spawn_join(rng, bodies, main_extra)}
 
 
 if __name__ == '__main__':
